@@ -153,6 +153,7 @@ class AirTouchSocket(Generic[comms.Hdr]):
 
         self.is_open = False
         self.is_connected = False
+        self._connecting = False
 
         self._background_tasks: set[asyncio.Task[Any]] = set()
 
@@ -292,9 +293,10 @@ class AirTouchSocket(Generic[comms.Hdr]):
         task.add_done_callback(discard_task)
 
     async def _connect(self) -> None:
-        if self.is_connected:
-            _LOGGER.debug("_connect ignored. Already connected")
+        if self.is_connected or self._connecting:
+            _LOGGER.debug("_connect ignored. Already connected or connecting")
             return
+        self._connecting = True
 
         _LOGGER.debug("Attempting to open connection to %s:%d", self.host, self.port)
         try:
@@ -313,6 +315,8 @@ class AirTouchSocket(Generic[comms.Hdr]):
             await self._drain_message_queue()
         except OSError as ex:
             _LOGGER.debug("Unable to connect. Will try again later. Reason: %s", ex)
+        finally:
+            self._connecting = False
 
         if not self.is_connected:
             # Connection failed, so retry after a small delay
